@@ -43,7 +43,8 @@ def programs(tick, unit, kind='futures'):
     # half of the position leaves through an exit a hair above the entry price (routed to MARKET at a price the candle may never
     # trade: executed by the end-of-minute flush); its handler then places a stop one tick below the entry
     P.append(('long-limit-near-market-tp', dict(base, side='long', enter={'when': 'flat', 'legs': [[2, -1]]},
-                                                 on_open={'tp': [[1, 0.005], [1, 3]]}, on_reduced={'sl': 'all', 'sl_d': 1} if kind == 'futures' else None,
+                                                 on_open={'sl': [[2, 1]], 'tp': [[1, 0.005], [1, 3]]} if kind == 'futures' else {'tp': [[1, 0.005], [1, 3]]},
+                                                 on_reduced={'sl': 'all', 'sl_d': 1} if kind == 'futures' else None,
                                                  cancel_entry=True)))
     P.append(('long-market-breakeven', dict(base, side='long', enter={'when': 'flat', 'legs': [[2, 0]]},
                                              on_open={'sl': [[2, 2]], 'tp': [[1, 1], [1, 3]]},
